@@ -4,6 +4,7 @@ import (
 	"bytes"
 	"encoding/json"
 	"fmt"
+	"reflect"
 	"runtime"
 	"sort"
 	"sync"
@@ -430,6 +431,14 @@ func queryState(rig *Rig, sc *Scenario, s *State) ([]Violation, map[string]int64
 				add("query-returns-the-stored-record", c.kind, "legacy-error:"+errClass(lerr), fmt.Sprintf("legacy %s(%s) failed: %v", c.kind, c.arg, lerr))
 			} else if !bytes.Equal(want, lbz) && jsonMultiset(want) != jsonMultiset(lbz) {
 				add("query-returns-the-stored-record", c.kind, "legacy-differs", fmt.Sprintf("legacy %s(%s) returned %s, stored %s", c.kind, c.arg, clip(string(lbz)), clip(string(want))))
+			} else if c.kind == "response" || c.kind == "responses-of-batch" || c.kind == "request" || c.kind == "context" {
+				// the JSON answer, read back, must be the stored record itself (text that JSON cannot carry comes back altered)
+				if back := reflect.New(reflect.TypeOf(c.truth)); amino.UnmarshalJSON(lbz, back.Interface()) == nil {
+					if fmt.Sprintf("%q", fmt.Sprint(back.Elem().Interface())) != fmt.Sprintf("%q", fmt.Sprint(c.truth)) {
+						add("query-returns-the-stored-record", c.kind, "legacy-answer-reads-back-differently", fmt.Sprintf("legacy %s(%s): the answer read back is %s, stored %s", c.kind, c.arg,
+							clip(fmt.Sprintf("%q", fmt.Sprint(back.Elem().Interface()))), clip(fmt.Sprintf("%q", fmt.Sprint(c.truth)))))
+					}
+				}
 			}
 		}
 		if (gerr == nil) != (lerr == nil) {
